@@ -8,7 +8,7 @@ from ..interp import cval, has_const
 from ..source import norm_text
 from .common import calls_in, walk_no_nested
 from .formula import check_degree, check_label, label_obligations, match_mono, no_scale_dependent_ops
-from .geo import all_geos, geo_text, uniq_events
+from .geo import all_geos, geo_text, kind_errors, uniq_events
 
 TM = 'gemdat.metrics.TrajectoryMetrics'
 TMS = 'gemdat.metrics.TrajectoryMetricsStd'
@@ -52,6 +52,7 @@ def check(ctx):
         it = ctx.entry(fi.qualname)
         scope = lambda f: f.qualname.startswith(TM + '.') or f.qualname in helpers
         nbad = no_scale_dependent_ops(ctx, 'R1', it, scope)
+        nbad += kind_errors(ctx, 'R1', it, scope)
         res = it.result
         vals = res.elts if (res is not None and res.elts) else [res]
         for k, v in enumerate(vals):
